@@ -1,6 +1,6 @@
 """Per-property configuration of the checks (parts, bounds, non-triviality rules, evidence text)."""
 
-HARNESS_SOURCES = ["main.cc", "engine_poly.cc", "engine_tet.cc", "engine_hex.cc", "mon_hist.cc"]
+HARNESS_SOURCES = ["main.cc", "engine_poly.cc", "engine_tet.cc", "engine_hex.cc", "mon_hist.cc", "mon_c12.cc"]
 
 def cnt(js, k):
     return js.get("cnt", {}).get(k, 0)
@@ -59,6 +59,31 @@ PROPS = {
   "min_counts": {"prop.value-checks": 200000, "prop.default-checks": 2000},
   "assumptions": COMMON_ASSUME,
  },
+ "C09": {
+  "level": "exploration",
+  "technique": "brute-force fan classifier and successor relation around every edge compared with halfedge_halffaces order; in-cell adjacency vs unique-candidate scan; after every step of histories",
+  "parts": [
+    {"name": "dbg", "flavor": "asan-dbg", "monitor": "C09", "cases": {"quick": 1000, "thorough": 20000}},
+  ],
+  "nontrivial": {"fn": lambda js: cnt(js, "fan.valence>=3") >= 3 and cnt(js, "adj.queries") >= 50 and sum(v for k, v in js.get("cnt", {}).items() if k.startswith("op.delete") or k.startswith("op.swap") or k == "op.collect_garbage" or k == "op.toggle_bu") >= 1,
+                 "text": "case = mesh with rings/chains of tets attached around edges in random order, hex blocks, soups; history of add_cell/add_face/delete_*/collect_garbage/swap_*/bottom-up toggling (no set_face/set_cell). After every step every edge is classified by brute force; for single-fan edges the reported halfface order must follow the in-cell successor relation, boundary halfface last, opposite halfedge mirrored; adjacent_halfface_in_cell must equal the unique candidate for both halfedge orientations and be involutive. non-trivial = >=3 checks of fans with valence>=3, >=50 adjacency queries, >=1 delete/swap/gc/toggle; distinct by operation digest"},
+  "floor": {"quick": 200, "thorough": 4000},
+  "min_counts": {"fan.interior": 200, "fan.boundary": 2000, "adj.queries": 100000},
+  "assumptions": COMMON_ASSUME + ["edges whose faces/cells do not form a single fan, and cells with 0 or >=2 adjacency candidates, are not judged (unspecified by the property)"],
+ },
+ "C12": {
+  "level": "exploration",
+  "technique": "differential twins: same API call stream on an all-incidences mesh and on a mesh with a random, mid-history toggled incidence subset; handle-for-handle comparison after every step; circulators of disabled kinds must be invalid",
+  "parts": [
+    {"name": "dbg", "flavor": "asan-dbg", "monitor": "C12", "cases": {"quick": 1500, "thorough": 25000}},
+    {"name": "rel", "flavor": "asan-rel", "monitor": "C12", "cases": {"quick": 400, "thorough": 6000}},
+  ],
+  "nontrivial": {"fn": hist_rule(lambda js: cnt(js, "twin.comparisons") >= 20 and cnt(js, "disabled-circulators") >= 5),
+                 "text": "case = history (construction, deletion in the case's mode, garbage collection, swaps, mode switches, incidence toggles) executed on two meshes through the identical API call stream: A keeps all bottom-up incidences, B starts with a random subset (the shipped default deferred+fast/no incidences every 4th case) and toggles kinds mid-history. After every step: definitions, flags, counts, tag properties (6 kinds) and positions agree handle for handle; caches of kinds enabled in B equal A's; C01 and C09 oracles on B; every circulator needing a disabled kind must be invalid at construction. non-trivial = >=1 deletion/swap/gc, a live cell, >=20 twin comparisons, >=5 disabled-circulator probes"},
+  "floor": {"quick": 300, "thorough": 5000},
+  "min_counts": {"twin.comparisons": 30000, "disabled-circulators": 20000},
+  "assumptions": COMMON_ASSUME + ["definitions/properties in deleted-but-uncollected slots are not compared"],
+ },
  "C17": {
   "level": "exploration",
   "technique": "handle-level before/after snapshot of every swap (tags, flags, all properties side by side), double-swap and self-swap identity, plus model and incidence oracles",
@@ -83,6 +108,10 @@ LEVEL_TEXT = {
          "note": "trusted: the model's 30-line closure computation, identity carried by monitor-owned tag properties (cross-checked by positions)"},
  "C03": {"text": "Runtime exploration: shadow copies of every property value keyed by stable entity id (and side) are compared after every step of histories that delete, collect, swap, clear and grow; sizes and default values of fresh slots are checked at the moment of growth.",
          "note": "trusted: value comparison through a lossless textual representation (%a for doubles); deleted-but-uncollected slots are not judged"},
+ "C09": {"text": "Runtime exploration: the fan structure around every edge is recomputed by brute force after every step and the reported order is checked against the successor relation; adjacency in cells against the unique-candidate scan.",
+         "note": "trusted: the fan classifier (only edges it accepts are judged); scan accessors"},
+ "C12": {"text": "Runtime exploration with a differential twin: an all-incidences mesh and a partially-disabled, toggled mesh run the same call stream; equality handle for handle after every step, plus C01/C09 oracles on the toggled mesh and invalid-circulator probes.",
+         "note": "trusted: Twin::apply replays exactly the recorded API calls; the twin itself is the library (a defect common to both paths is caught by C01/C02 instead)"},
  "C17": {"text": "Runtime exploration: every swap is observed at handle level (tags, deletion flags, all property arrays side by side) before/after, repeated (identity) and with equal arguments (no-op), combined with the model and incidence oracles.",
          "note": "trusted: snapshots read through the public API; contents of deleted slots unspecified"},
 }
